@@ -268,7 +268,7 @@ func (d *DNS64) handlePTR(ctx context.Context, ch *middleware.Chain, qname strin
 	}
 	var v4 net.IP
 	for _, p := range d.cfg.prefixes {
-		if !p.net.Contains(addr) {
+		if !prefixContains(p.net, addr) {
 			continue
 		}
 		ext, ok := extractIPv4(p.net, addr)
@@ -461,8 +461,10 @@ func (w *responseWriter) WriteMsg(m *dns.Msg) error {
 	// modified) version. If nothing survives — every AAAA was
 	// excluded, or there were none to begin with — fall through
 	// to the synthesis path.
+	strippedAAAA := false
 	if m.Rcode == dns.RcodeSuccess {
 		filtered, hadAAAA, kept, stripped := w.filterUpstreamAAAA(m)
+		strippedAAAA = stripped > 0
 		if hadAAAA && kept > 0 {
 			passthroughAAAAPresent.Inc()
 			if stripped > 0 {
@@ -492,6 +494,12 @@ func (w *responseWriter) WriteMsg(m *dns.Msg) error {
 		// A lookup failed or yielded nothing usable; preserve the
 		// original (already AAAA-filtered) answer rather than
 		// papering over it. Reason has already been counted.
+		// If records were stripped, m is our modified copy: the
+		// validator's AD no longer covers what the client sees.
+		if strippedAAAA && m.AuthenticatedData {
+			m.AuthenticatedData = false
+			dnsutil.SetEDE(m, dns.ExtendedErrorCodeForgedAnswer, "DNS64 filtered IPv4-mapped AAAA")
+		}
 		return w.ResponseWriter.WriteMsg(m)
 	}
 	Synthesised.Inc()
@@ -633,7 +641,7 @@ func (w *responseWriter) synthesise(orig *dns.Msg) (*dns.Msg, error) {
 	// the A records carry — short-lived A records intentionally
 	// keep DNS64 answers short-lived too.
 	ttl := noSOATTLCeiling
-	if negTTL := negativeAAAATTL(orig); negTTL > 0 {
+	if negTTL, ok := negativeAAAATTL(orig); ok {
 		ttl = negTTL
 	}
 	for _, a := range addresses {
@@ -887,20 +895,23 @@ func isCachedFailureResponse(ctx context.Context, m *dns.Msg) bool {
 	return hasExtendedError(m, dns.ExtendedErrorCodeCachedError)
 }
 
-// negativeAAAATTL returns the SOA-derived minimum negative TTL of
-// the original AAAA response, or 0 if no SOA is present. RFC 2308
-// — the negative TTL is min(SOA.MINIMUM, SOA.TTL).
-func negativeAAAATTL(m *dns.Msg) uint32 {
+// negativeAAAATTL returns the SOA-derived negative TTL of the
+// original AAAA response and whether an SOA was present. RFC 2308
+// — the negative TTL is min(SOA.MINIMUM, SOA.TTL). Zero is a real
+// value (an SOA served from cache in its last second, a zone with
+// MINIMUM 0): it must bound the synthesised TTL, not be mistaken
+// for "no SOA".
+func negativeAAAATTL(m *dns.Msg) (uint32, bool) {
 	for _, rr := range m.Ns {
 		if soa, ok := rr.(*dns.SOA); ok {
 			ttl := soa.Hdr.Ttl
-			if soa.Minttl > 0 && soa.Minttl < ttl {
+			if soa.Minttl < ttl {
 				ttl = soa.Minttl
 			}
-			return ttl
+			return ttl, true
 		}
 	}
-	return 0
+	return 0, false
 }
 
 // classifyQueryErr collapses queryer errors to a small label set so
